@@ -839,6 +839,21 @@ pub async fn process_multiple_changes(
                             }
                         })?;
                     }
+                    // chunks buffered for versions that a holder declares empty are obsolete:
+                    // forget the partials and have their buffered rows cleared
+                    let superseded: Vec<CrsqlDbVersion> = booked_write
+                        .partials
+                        .range(versions.clone())
+                        .map(|(version, _)| *version)
+                        .collect();
+                    if !superseded.is_empty() {
+                        applied_complete
+                            .extend(superseded.into_iter().map(|version| (actor_id, version)));
+                        if let Err(e) = agent.tx_clear_buf().try_send((actor_id, versions.clone()))
+                        {
+                            error!("could not schedule buffered meta clear: {e}");
+                        }
+                    }
                     KnownDbVersion::Cleared
                 } else {
                     if let Some(seqs) = change.seqs()
